@@ -16,6 +16,7 @@ import (
 func init() {
 	register(&Workload{Prop: "C02", Variant: "order", Horizon: 10 * time.Minute, MaxSteps: 400000, MaxG: 2048, Spin: 20000, PCTLen: 2000, Body: c02Order})
 	register(&Workload{Prop: "C02", Variant: "killorder", Horizon: 10 * time.Minute, MaxSteps: 200000, MaxG: 2048, Spin: 8000, PCTLen: 1500, Body: c02KillOrder})
+	register(&Workload{Prop: "C02", Variant: "killrace", Horizon: 10 * time.Minute, MaxSteps: 300000, MaxG: 2048, Spin: 8000, PCTLen: 2500, Body: c02KillRace})
 	register(&Workload{Prop: "C02", Variant: "stash", Horizon: 10 * time.Minute, MaxSteps: 200000, MaxG: 2048, Spin: 8000, PCTLen: 1500, Body: c02Stash})
 }
 
@@ -181,6 +182,70 @@ func c02KillOrder(r *R) {
 		if e.Kind == "Cmd" {
 			r.Fail("C02/user-message-after-onkill", "the behaviour processed %s after OnKill", e.String())
 			return
+		}
+	}
+}
+
+// W3b: an immediate kill issued while the consumer is running. Kill() has returned - the OnKill is pending in the system
+// queue - before the next user message is even sent, so that message must never reach the behaviour, wherever the consumer
+// goroutine was between its look at the system queue and its pop from the user queue. Several targets per run: the window
+// is two scheduling steps wide.
+func c02KillRace(r *R) {
+	w := newWorld(r, WorldOpt{})
+	if r.Failed() {
+		return
+	}
+	nt := 4 + r.Choose(5)
+	type tgt struct {
+		path  string
+		ref   vivid.ActorRef
+		after int
+		n     int
+	}
+	ts := make([]*tgt, nt)
+	for i := range ts {
+		name := fmt.Sprintf("t%d", i)
+		ref, err := w.Spawn(&Spec{Name: name, Plain: true})
+		if err != nil {
+			r.Fail("C02/harness", "spawn: %v", err)
+			return
+		}
+		ts[i] = &tgt{path: "/" + name, ref: w.RefBy(provenances[r.Choose(len(provenances))], ref, "/"+name), n: 1 + r.Choose(10)}
+	}
+	vsimrt.Settle()
+	r.Sample(map[string]any{"targets": nt})
+	for _, t := range ts {
+		for k := 0; k < t.n; k++ {
+			w.Tell(t.ref, w.NewCmd("s", k, nil))
+		}
+		w.Sys.Kill(t.ref, false, "scripted")
+		c := w.NewCmd("s", t.n, nil) // sent after Kill returned
+		t.after = c.ID
+		w.Tell(t.ref, c)
+	}
+	vsimrt.SettleFor(100 * time.Millisecond)
+	for _, t := range ts {
+		evs := filter(w.Events(), func(e Event) bool { return e.Path == t.path && (e.Kind == "Cmd" || e.Kind == "OnKill") })
+		killAt := -1
+		for i, e := range evs {
+			if e.Kind == "OnKill" && killAt < 0 {
+				killAt = i
+			}
+			if e.Kind == "Cmd" && e.ID == t.after {
+				r.Fail("C02/message-after-kill-processed poison=false", "a user message sent after Kill() returned was processed by the behaviour; trace: %s", fmtEvents(evs, 20))
+				return
+			}
+			if e.Kind == "Cmd" && killAt >= 0 {
+				r.Fail("C02/user-message-after-onkill", "the behaviour processed %s after OnKill", e.String())
+				return
+			}
+		}
+		if killAt < 0 {
+			r.Fail("C02/kill-not-processed", "the target never saw OnKill; trace: %s", fmtEvents(evs, 20))
+			return
+		}
+		if killAt < t.n {
+			r.Count("immediate-kill-overtook-queue")
 		}
 	}
 }
